@@ -470,6 +470,13 @@ func (d *digest) sum(fr *frame) value {
 }
 
 func (d *digest) callMethod(fr *frame, name string, args []value) value {
+	if name == "Write" || name == "Reset" {
+		if st := fr.i.px.shared; st != nil && st.frozen && st.natives[d] {
+			if w, _ := fr.i.px.heldLocks(); len(w) == 0 {
+				st.writes = append(st.writes, "hash state "+name+" at "+fr.caller.where())
+			}
+		}
+	}
 	switch name {
 	case "Write":
 		b := args[0].([]value)
@@ -1159,7 +1166,7 @@ func callHandleMethod(fr *frame, h handle, name string, args []value) value {
 
 // freeze marks every cell reachable from the roots as shared.
 func (px *PathCtx) freeze(roots []value) {
-	st := &sharedTracker{objs: map[*value]string{}, maps: map[*amap]bool{}, frozen: true}
+	st := &sharedTracker{objs: map[*value]string{}, maps: map[*amap]bool{}, natives: map[nativeObj]bool{}, frozen: true}
 	seenS := map[*value]bool{}
 	var walk func(v value, depth int)
 	walkCells := func(cells []value, depth int) {
@@ -1192,6 +1199,10 @@ func (px *PathCtx) freeze(roots []value) {
 		case []value:
 			walkCells(x[:cap(x)], depth)
 		case iface:
+			if no, ok := x.v.(nativeObj); ok {
+				st.natives[no] = true
+				return
+			}
 			walk(x.v, depth+1)
 		case *amap:
 			if x != nil && !st.maps[x] {
